@@ -62,7 +62,7 @@ Print Assumptions C03_spec_holds.
 
 (* A client lookup that fails in any way (storage error of any kind, or client not
    registered, however the storage reports that), or no URI the request mentions (plain
-   parameter; redirect_uri inside a request object) being present and matching something
+   parameter - every value of it when it is repeated -; redirect_uri inside a request object) being present and matching something
    registered: answered with an error page on both routers, and nothing is stored. *)
 Theorem C03_direct_error :
   forall (glob : string -> string -> gres) (info : string -> uinfo) (reqobj_supported : bool)
